@@ -267,6 +267,15 @@ func (mbs *metadataPartStorage) AppendObject(ctx context.Context, bucketName sto
 			Parts:        allParts,
 		}
 
+		if existingObject != nil {
+			// Appends preserve the object's metadata, tags and storage class. In a
+			// versioning-enabled bucket the metadata store writes a new version
+			// from updatedObject, so it must carry them over explicitly.
+			updatedObject.StorageClass = existingObject.StorageClass
+			updatedObject.Tags = existingObject.Tags
+			updatedObject.Metadata = existingObject.Metadata
+		}
+
 		metaOpts := &metadatastore.AppendObjectOptions{}
 		metadataResult, err := mbs.metadataStore.AppendObject(ctx, tx.SqlTx(), bucketName, updatedObject, metaOpts)
 		if err != nil {
